@@ -491,6 +491,7 @@ func runC17(c *Ctx) {
 		os.Unsetenv(n)
 	}
 	c.Emit("subst", "newDcpConfig placeholder substitution (per option text) vs Config.subst_env", im, "list (bytes * bytes) * bytes * bytes", "chk_subst", sc, sr, 400)
+	runC17NewDcp(c)
 }
 
 func pow10(f int) int {
